@@ -162,7 +162,7 @@ def pixel_frame(P):
 
 
 def region_choices(rows, rng=None):
-    """3 region choices for a bin table: none / -r (unaligned, inside the first chromosome) / -r + -r2.
+    """5 region choices for a bin table: none / -r (unaligned, inside the first chromosome) / -r + -r2 above, below, across the diagonal.
     Only non-empty ranges (empty ranges at a chromosome end are C04's recorded finding)."""
     chroms = []
     for c, s, e in rows:
@@ -180,13 +180,20 @@ def region_choices(rows, rng=None):
         s, e = 1, L0
     if s >= e:
         s = e - 1
+    # 0 none | 1 -r alone (the box straddles the diagonal) | 2 -r + -r2 above the diagonal | 3 -r + -r2 BELOW the diagonal
+    # (the column bins come before the row bins) | 4 -r + -r2 partly overlapping (box crosses the diagonal, not anchored on it)
     out = [dict(r=None, r2=None, rows=None, cols=None),
            dict(r=f"{c0}:{s}-{e}", r2=None, rows=(c0, s, e), cols=None)]
     if len(chroms) > 1:
-        out.append(dict(r=f"{c0}:{s:,}-{e:,}", r2=cl, rows=(c0, s, e), cols=(cl, 0, ext[cl][-1][2])))
+        whole = (cl, 0, ext[cl][-1][2])
+        out.append(dict(r=f"{c0}:{s:,}-{e:,}", r2=cl, rows=(c0, s, e), cols=whole))
+        out.append(dict(r=cl, r2=f"{c0}:{s}-{e}", rows=whole, cols=(c0, s, e)))
+        out.append(dict(r=f"{c0}:{s}-", r2=f"{c0}:0-{e}", rows=(c0, s, L0), cols=(c0, 0, e)))
     else:
         s2 = b0[-2][1] if len(b0) >= 2 else 0
         out.append(dict(r=f"{c0}:0-{e}", r2=f"{c0}:{s2}-", rows=(c0, 0, e), cols=(c0, s2, L0)))
+        out.append(dict(r=f"{c0}:{s2}-", r2=f"{c0}:0-{e}", rows=(c0, s2, L0), cols=(c0, 0, e)))
+        out.append(dict(r=f"{c0}:{s}-{e}", r2=c0, rows=(c0, s, e), cols=(c0, 0, L0)))
     if rng is not None:       # thorough: two random non-empty regions (r, r2), arbitrary chromosomes
         def rnd():
             c = rng.choice(chroms)
@@ -428,9 +435,9 @@ def api_rows(clr, o, reg):
     return list(df.columns), df.values.tolist()
 
 
-def check_api(spec, runner, path, clr, o, reg):
+def check_api(spec, runner, path, clr, o, reg, k=None):
     o = frozenset(o)
-    args = dump_args(o, reg, [])
+    args = dump_args(o, reg, [], k)
     case = dict(bintable=spec["tname"], matrix=spec["mname"], symmetric_upper=spec["symm"], args=args + ["<cool>"], against="library query")
     detail = dict(bins=spec["bins"], pixels=spec["pixels"])
     C = "dump==library-query"
@@ -496,6 +503,9 @@ def dump_job(spec):
         clr = cooler.Cooler(path)
         for o, ri in spec.get("api", []):
             out += check_api(spec, runner, path, clr, o, regs[ri])
+        for o, ri, k in spec.get("chunked", []):
+            if set(o) <= {"fill-lower", "balanced", "join"} and not ({"fill-lower", "join"} <= set(o) and spec["symm"]):
+                out += check_api(spec, runner, path, clr, o, regs[ri], k)
         # -H adds exactly one line; -o writes what stdout would get
         for o in spec.get("plain", []):
             reg = regs[0]
@@ -978,7 +988,7 @@ def main():
         red = [(t, m, s) for t in tables for m in ("empty", "diagonal", "corners") for s in (True, False)]
     else:
         full = [("variable", "dense", True)]
-        mid = [("fixed10-short-last", "sparse-empty-row", False)]        # square: subsets of size <= 3 and the full set
+        mid = [("fixed10-short-last", "sparse-empty-row", False)]        # square: subsets of size <= 2 and the full set, all 5 region choices
         red = [("variable", "corners", False), ("one-bin-chroms", "dense", True),
                ("single-chrom-fixed", "dense", False), ("fixed10-exact", "empty", True)]
     dump_specs = []
@@ -987,12 +997,22 @@ def main():
             rows = tables[t]
             A = scope_matrices(len(rows))[m]
             regs = region_choices(rows, B.rng if T else None)
-            subs = subsets(which == "full", 3 if which == "mid" else 1 if m == "empty" and not T else 2)
-            runs = [(sorted(o), ri) for o in subs for ri in range(len(regs))]
+            subs = subsets(which == "full", 1 if m == "empty" and not T else 2)
+            ridx = list(range(len(regs))) if which != "reduced" or T else [0, 1, 2, 3]
+            runs = [(sorted(o), ri) for o in subs for ri in ridx]
             api = [(sorted(o), ri) for o in subs if o <= {"fill-lower", "balanced", "join"} and not ({"fill-lower", "join"} <= o and s)
-                   for ri in range(len(regs))]
+                   for ri in ridx]
             chunked = [(sorted(o), ri, k) for o in (frozenset(), frozenset({"fill-lower"}), frozenset(FLAGS) - {"columns"})
-                       for ri in range(min(3, len(regs))) for k in ((1, 2, 3) if which in ("full", "mid") or T else (2,))]
+                       for ri in range(3) for k in ((1, 2, 3) if which in ("full", "mid") or T else (2,))]
+            # region boxes on / above / BELOW / across the diagonal with the bin-table joins and tiny chunks (-k 1, 2: chunks that are
+            # empty, start at a row > 0, hold fewer records than there are bins): every record must carry the coordinates, weights and
+            # annotation of its OWN two bins; with --fill-lower on symmetric coolers, as stored on square ones
+            if T or which in ("full", "mid") or (t, m) in (("one-bin-chroms", "dense"), ("variable", "corners")):
+                for base in ({"join"}, {"balanced"}, {"annotate"}, {"join", "balanced", "annotate"}):
+                    for fill in (False, True):
+                        for ri in (1, 2, 3, 4):
+                            for k in (1, 2):
+                                chunked.append((sorted(base | ({"fill-lower"} if fill else set())), ri, k))
             dump_specs.append(dict(dir=jdir(), tname=t, mname=m, symm=s, bins=rows, pixels=stored_pixels(A.tolist(), s), regions=regs,
                                    ann=["tag"], runs=runs, api=api, chunked=chunked,
                                    plain=[[], sorted(set(FLAGS) - {"columns"})] if which in ("full", "mid") else [[]]))
@@ -1196,9 +1216,10 @@ def main():
     zoomify_checks(B, R, zcoolers)
 
     nd = sum(len(s["runs"]) + len(s["chunked"]) for s in dump_specs)
-    B.bound = (f"dump: coolers drawn from {'8' if T else '5 small'} bin-table shapes x 5 matrices x symmetric/square: {len(full)} coolers x all 128 subsets of the 7 options" + ("" if T else " and 1 square cooler x the subsets of size <=3 and the full set") + " x "
-               f"{'5' if T else '3'} region choices (none, -r, -r + -r2{', 2 seeded random' if T else ''}); {len(red)} more coolers x the subsets of size <=2 and the full set; "
-               f"-k in {{1,2,3}} on 3 subsets; {nd} distinct command lines" + (f"; + {n_random} random matrices x 24 random subsets" if T else "") + ". "
+    B.bound = (f"dump: coolers drawn from {'8' if T else '5 small'} bin-table shapes x 5 matrices x symmetric/square: {len(full)} coolers x all 128 subsets of the 7 options" + ("" if T else " and 1 square cooler x the subsets of size <=2 and the full set") + " x "
+               f"{'7' if T else '5'} region choices (none, -r, -r + -r2 above / below / across the diagonal{', 2 seeded random' if T else ''}); {len(red)} more coolers x the "
+               f"subsets of size <=2 and the full set{'' if T else ' x 4 region choices'}; -k in {{1,2,3}} on 3 subsets; on {'all' if T else '4'} coolers "
+               f"{{join, balanced, annotate, all three}} x with/without --fill-lower x 4 region boxes x -k in {{1,2}}; {nd} distinct command lines" + (f"; + {n_random} random matrices x 24 random subsets" if T else "") + ". "
                f"load: COO every permutation of 3 fields in 3 columns, {'every placement in 4 and 5' if T else 'every second placement in 4'} columns and {'all' if T else 'every third'} of 4 fields (with a supplementary value field) in 4{' and 5' if T else ''} columns; "
                f"BG2 value fields (count, val) at {'every position' if T else 'positions 7..9'} behind the positional columns in both command-line orders, and {len(dict.fromkeys(perms))} "
                f"{'(8 fixed + seeded sample)' if T else '(fixed selection)'} permutations of all 7 columns given by --field; x zero/one-based x symmetric/square on "
